@@ -3,6 +3,15 @@ results, structure fields, list / map elements and keys, station URLs, variant s
 non-ASCII content — 2-, 3- and 4-byte UTF-8 sequences (astral characters included), at the start / end / alone, and
 strings whose byte length crosses a boundary (255/256) that their character count does not.
 
+A third mode (`edge`) puts a string from the EDGES of the value domain into every string-valued position: strings ending
+in one or more U+0000, consisting only of U+0000, with U+0000 at the start / in the middle, with leading / trailing white
+space (ASCII and Unicode) and other control characters, a byte-order mark, lone characters at the borders of the BMP and
+of the surrogate gap (U+D7FF, U+E000, U+FFFD..U+FFFF), text that Unicode normalisation / case folding would change, the
+empty string next to None, and (every LONG_EVERY-th string position) strings whose encoded length sits at a border of the
+16-bit length prefix: 254..256, 32766..32768 (sign bit of the prefix) and 65533 / 65534 bytes (the longest encodable
+string: the prefix counts the terminator). Map keys that differ ONLY in such a tail (k, k+NUL, k+NUL+NUL, k+space) are
+generated together: they must stay distinct keys. Station URLs get such text in parameter values and scheme.
+
 A second mode (`big`) makes buffers, strings and top-level lists large enough that the RMC message carrying them is split
 into several PRUDP fragments (fragment size 1300 by default, 962 in the 3ds / friends profiles)."""
 import schema_values as SV
@@ -32,8 +41,56 @@ NA_URLS = [
 ]
 
 
+# ---- edges of the string domain (every entry is encodable: no lone surrogates)
+EDGE_NUL = ["\0", "\0\0", "\0" * 8,                                                             # only U+0000
+            "a\0", "name\0", "Nintendo\0\0", "trailing\0\0\0", "\u00e9\0", "\U0001f600\0", "x \0", "\0 \0",   # ending in U+0000
+            "\0a", "\0leading", "a\0b", "mid\0\0dle", "\0a\0", "a\0b\0", "\0\0a"]                      # at the start / in the middle
+EDGE_WS = [" ", "  ", "a ", "a  ", " a", " a ", "a\t", "a\n", "a\r", "a\r\n", "line one\nline two\n", "\n", "\t", "\r\n",
+           "a\x0b", "a\x0c", "a\x1c", "a\x1f", "a\x85", "a\u00a0", "a\u1680", "a\u2003", "a\u2028", "a\u2029", "a\u3000",
+           "\u3000a", "a\u200b", "a\u200e", "\ufeff", "\ufeffa", "a\ufeff"]                                        # white space (str.strip's idea of it and more), zero width, BOM
+EDGE_CTRL = ["\x01", "\x7f", "a\x7f", "a\x08", "\x1b[0m", "a\x00\x01", "\x80", "a\x9f", "\x1a", "a\\", "a\"", "a'", "%s", "a%", "\\0", "a\\x00"]
+EDGE_BMP = ["\uffff", "\ud7ff", "\ue000", "\ufffe", "\ufffd", "\uffff\0", "a\uffff", "\uffffa", "\ud7ff\ue000", "\ue000\0", "\ufffd\ufffd",
+            "\uffff\U00010000", "\U0010ffff\0", "\ud7ff "]
+EDGE_NORM = ["\u212b", "\ufb01", "e\u0301", "\u00df", "\u0130", "\u1e9e", "\u03c2", "\uff21", "\u2126", "\u00c5"]   # NFC / NFKC / case folding would change these
+EDGE_STR = EDGE_NUL * 3 + EDGE_WS + EDGE_CTRL + EDGE_BMP * 2 + EDGE_NORM + [""]
+EDGE_TAILS = ["\0", "\0\0", "\0\0\0", " ", "  ", "\t", "\n", "\r\n", "\x0b", "\x1f", "\x7f", "\u00a0", "\u3000", "\u2028", "\ufeff", "\uffff", "\ud7ff", "\ue000", " \0", "\0 "]
+MAX_STR_BYTES = 65534            # u16 length prefix counts the terminator
+LONG_BYTES = [254, 255, 256, 32766, 32767, 32768, 65533, MAX_STR_BYTES]
+LONG_EVERY = 48
+
+# str(StationURL.parse(u)) == u for all of these
+EDGE_URLS = [
+    "prudp:/address=a\0", "prudp:/address=192.168.1.20;port=60000;Uri=\0", "prudp:/Uri=\0\0", "prudp:/address=a\0b;sid=1",
+    "prudp:/address=example.com ;port=1", "prudp:/Uri=/path\n", "prudp:/Rsa=\t", "udp:/Ra=\uffff;PID=1", "prudps:/Ntrpa=\ud7ff\ue000",
+    "\0:/address=a", "prudp\0:/", " :/address= ", "prudp:/address=a;Uri= \0", "prudp:/\0=\0", "prudp:/k\0=v\0\0", "prudp:/address=\ufeff",
+    "prudp:/Uri=\x7f;Rsa=\x01\0",
+]
+
+
 # sizes around the shipped fragment sizes (962, 1300) and multiples of them, and well beyond
 BIG_SIZES = [900, 961, 962, 963, 1299, 1300, 1301, 1924, 2600, 3000, 3900, 5200, 9000]
+
+
+def is_edge(s):
+    """does the string lie in one of the edge classes (ends / starts in or contains U+0000, white space or a control character at
+    either end, a BMP / surrogate-gap border character, a length at a border of the 16-bit prefix)?"""
+    if s == "": return True
+    n = len(s.encode("utf8"))
+    return ("\0" in s or s[0].isspace() or s[-1].isspace() or ord(s[0]) < 32 or ord(s[-1]) < 32 or any(c in s for c in "\uffff\ufffe\ufffd\ud7ff\ue000\ufeff\x7f")
+            or n in LONG_BYTES)
+
+
+def edge_class(s):
+    """coarse class for the evidence tags"""
+    n = len(s.encode("utf8"))
+    if n >= 254 and n in LONG_BYTES: return "longest" if n == MAX_STR_BYTES else "length-border"
+    if s and not s.strip("\0"): return "only-nul"
+    if s.endswith("\0"): return "ends-in-nul"
+    if "\0" in s: return "nul-inside"
+    if s and (s[-1].isspace() or s[0].isspace()): return "white-space-at-an-end"
+    if any(c in s for c in "\uffff\ufffe\ufffd\ud7ff\ue000"): return "bmp-border"
+    if s == "": return "empty"
+    return "other-edge"
 
 
 def is_non_ascii(s):
@@ -44,6 +101,10 @@ class Gen14(SV.Gen):
     def __init__(self, env, rng):
         super().__init__(env, rng)
         self.nonascii = False
+        self.edge = False
+        self.edge_i = 0              # string positions filled in edge mode so far (every LONG_EVERY-th one gets a length-border string)
+        self.edge_long_cap = MAX_STR_BYTES   # sessions over the PRUDP leg lower this: a message must fit 255 fragments of the smallest fragment size
+        self.edge_long_left = None   # None: no limit; otherwise how many length-border strings may still go into the current message
         self.big = False
         self.big_left = 0            # bytes of large content still to hand out in this value set
         self._stringy = {}
@@ -76,6 +137,44 @@ class Gen14(SV.Gen):
         s[r.choice([0, k - 1, r.randrange(k)])] = r.choice(NA_CHARS)      # at least one multi-byte character
         return "".join(s)
 
+    def long_string(self):
+        """encoded length exactly at a border of the 16-bit length prefix"""
+        r = self.rng
+        n = r.choice([x for x in LONG_BYTES if x <= self.edge_long_cap])
+        k = r.randrange(6)
+        if k == 0: return "a" * n
+        if k == 1: return "a" * (n - 1) + "\0"                                  # the longest string, ending in U+0000
+        if k == 2: return "\0" * n
+        if k == 3: return "\u00e9" * (n // 2) + "a" * (n % 2)                     # character count is half the byte count
+        if k == 4: return "a" * (n % 3) + "\uffff" * (n // 3)
+        return "".join(r.choice("abcdefghij KLMNOP0123456789_-") for _ in range(n - 2)) + r.choice(["\0\0", " \0", "\0 ", "\n\0"])
+
+    def edge_string(self):
+        r = self.rng
+        self.edge_i += 1
+        if self.edge_i % LONG_EVERY == 7 and (self.edge_long_left is None or self.edge_long_left > 0):
+            if self.edge_long_left is not None: self.edge_long_left -= 1
+            return self.long_string()
+        x = r.random()
+        if x < 0.6: return r.choice(EDGE_STR)
+        base = "".join(r.choice(NA_ALPHABET if x < 0.75 else "abcXYZ019 _-") for _ in range(r.randint(0, 12)))
+        t = "".join(r.choice(EDGE_TAILS) for _ in range(r.choice([1, 1, 2, 3])))
+        k = r.randrange(4)
+        if k == 0: return t + base
+        if k == 1 and base:
+            i = r.randrange(len(base) + 1)
+            return base[:i] + t + base[i:]
+        if k == 2: return t + base + r.choice(EDGE_TAILS)
+        return base + t
+
+    def edge_keys(self, k):
+        """k distinct strings that differ only in their tail"""
+        r = self.rng
+        stem = r.choice(["", "k", "key", "\u00e9", "Nintendo"])
+        tails = ["", "\0", "\0\0", " ", "\n", "\uffff"]
+        r.shuffle(tails)
+        return [stem + t for t in tails[:k]]
+
     def start_big(self, budget=14000):
         self.big, self.big_left = True, budget
 
@@ -91,6 +190,16 @@ class Gen14(SV.Gen):
             if n == "list" and depth == 0 and r.random() < 0.8:
                 k = r.randint(24, 60); self.big_left -= 1500
                 return ("list", [self.gen(t["template"][0], cfg, depth + 1, True) for _ in range(k)])
+        if self.edge:
+            n = t["name"]; r = self.rng
+            if n == "string":
+                if not required and r.random() < 0.06: return ("none",)
+                return ("str", self.edge_string())
+            if n == "stationurl": return ("url", r.choice(EDGE_URLS))
+            if n == "variant" and r.random() < 0.6: return ("str", self.edge_string())
+            if n == "map" and t["template"][0]["name"] == "string" and r.random() < 0.7:
+                keys = self.edge_keys(r.choice([2, 3, 4]))
+                return ("map", [(("str", k), self.gen(t["template"][1], cfg, depth + 1, True)) for k in keys])
         if self.nonascii:
             n = t["name"]
             if n == "string": return ("str", self.string())
